@@ -1,0 +1,13 @@
+//go:build verif
+
+package index
+
+import "github.com/lindb/lindb/series/metric"
+
+// Simulation hooks (build tag verif).
+
+// VerifSetSeriesSequence makes the next series id of the metric last+1 (series ids across roaring container
+// boundaries without creating tens of thousands of series).
+func VerifSetSeriesSequence(db MetricIndexDatabase, metricID metric.ID, last uint32) {
+	db.(*metricIndexDatabase).sequenceCache.Add(metricID, last)
+}
